@@ -216,6 +216,32 @@ func typeOnlyCases() [][2]bson.D {
 	}
 }
 
+// specialValueCases: the array operators decide membership by BSON comparison, under which NaN equals NaN, the
+// infinities equal themselves and -0 equals 0, for doubles and decimals alike.
+func specialValueCases() [][2]bson.D {
+	var out [][2]bson.D
+	nan, pinf, ninf := math.NaN(), math.Inf(1), math.Inf(-1)
+	a := func(v interface{}) bson.D { return bson.D{{Key: "a", Value: v}} }
+	v := func(x interface{}) bson.D { return bson.D{{Key: "v", Value: x}} }
+	docs := []bson.D{a(bson.A{nan, int32(1)}), a(bson.A{v(nan), v(int32(1))}), a(bson.A{pinf, ninf}), a(bson.A{dec("NaN"), dec("Infinity")}), a(bson.A{nil, "x", float64(0)}), a(bson.A{}),
+		a(bson.A{nan, nan, int32(2)})}
+	args := []struct {
+		op string
+		v  interface{}
+	}{
+		{"$addToSet", nan}, {"$addToSet", bson.D{{Key: "$each", Value: bson.A{nan, nan, int32(1)}}}}, {"$addToSet", v(nan)}, {"$addToSet", pinf}, {"$addToSet", dec("NaN")},
+		{"$addToSet", math.Copysign(0, -1)}, {"$addToSet", bson.D{{Key: "$each", Value: bson.A{ninf, dec("-Infinity"), nil}}}},
+		{"$pull", nan}, {"$pull", v(nan)}, {"$pull", pinf}, {"$pull", dec("NaN")}, {"$pull", bson.D{{Key: "$in", Value: bson.A{nan, nil}}}}, {"$pull", bson.D{{Key: "v", Value: nan}}},
+		{"$pullAll", bson.A{nan}}, {"$pullAll", bson.A{v(nan), ninf}}, {"$pullAll", bson.A{dec("NaN"), int32(0)}}, {"$push", nan},
+	}
+	for _, d := range docs {
+		for _, x := range args {
+			out = append(out, [2]bson.D{d, {{Key: x.op, Value: bson.D{{Key: "a", Value: x.v}}}}})
+		}
+	}
+	return out
+}
+
 func fixedCases() [][2]bson.D {
 	one := func(doc bson.D, op, path string, v interface{}) [2]bson.D {
 		return [2]bson.D{doc, {{Key: op, Value: bson.D{{Key: path, Value: v}}}}}
@@ -267,6 +293,12 @@ func main() {
 	}
 	for _, fc := range boundaryGrid() {
 		record(fc[0], fc[1], nil, false)
+	}
+	for _, fc := range specialValueCases() {
+		res := record(fc[0], fc[1], nil, false)
+		if !res.pnc && driverCheck(fc[0], fc[1], nil, res) {
+			modChecks++
+		}
 	}
 	for _, fc := range typeOnlyCases() {
 		res := record(fc[0], fc[1], nil, false)
